@@ -73,10 +73,10 @@ def run(ctx):
     ctx.log("TabList.tla: %d states, %d histories of 2 operations, Match holds" % (r.distinct, len(pairs)))
     if ctx.quick:
         rnd.shuffle(pairs)
-        pairs = pairs[:1500]
+        pairs = pairs[:1000]
     hists += pairs
     # simulated longer ones
-    sim, cap, depth = ctx.pick((12, 800, 5), (300, 20000, 6))
+    sim, cap, depth = ctx.pick((8, 500, 5), (300, 20000, 6))
     r = ctx.tlc("TabList", cfg_text=cfg(vers, depth), workers=1, timeout=900, simulate=sim, depth=depth + 1)
     longer = r.printed_json("HIST")
     states += r.distinct
@@ -123,6 +123,11 @@ def run(ctx):
                        json.dumps(bad["pkts"])[:600], json.dumps(bad["view"])[:400])
                     + ((" PANIC: " + bad.get("panic", "")) if bad.get("panicked") else ""),
                     {"ver": ver, "run": recs[start - 1:ln]})
+    hat_lines = sorted({int(x) for x in res.printed("HAT")})
+    if hat_lines:
+        ex = recs[hat_lines[0] - 1]
+        ctx.notes.append("observation, not judged (the hat flag is not in the statement): after %d calls on 1.21.4 viewers "
+                         "the proxy's ShowHat differs from the client's, first after %s" % (len(hat_lines), opdesc(ex)))
     cov = {
         "samples": st["samples"][:1],
         "evaluations": st["calls"],
@@ -134,6 +139,7 @@ def run(ctx):
         "packets_decoded": st["packets"],
         "operation_kinds": st["hows"],
         "histories_rejected": len(first),
+        "hat_flag_differences_observed": len(hat_lines),
         "exhaustive": False,
         "states": states + res.distinct,
     }
